@@ -19,8 +19,19 @@ def Ql(x):
 
 def run(ctx):
     cm.setup_impl_path()
-    for b in cm.audit(cm.coq_sources() + [os.path.join(cm.ROOT, 'props', 'C04.v')]): ctx.broken.append('audit: ' + b)
+    for b in cm.audit(cm.coq_sources() + [os.path.join(cm.ROOT, 'props', 'C04.v'), os.path.join(cm.ROOT, 'props', 'C04g.v')]): ctx.broken.append('audit: ' + b)
     cm.prove(ctx, 'C04.v')
+    # the restart cycle of _GMRESQsparse, regenerated from the source (one accepted statement structure, fail-closed)
+    sys.path.insert(0, os.path.join(cm.ROOT, 'qtrans'))
+    try:
+        import gen_c04
+        txt, _ = gen_c04.generate(cm.REPO)
+        open(os.path.join(ctx.build, 'Gen_C04.v'), 'w').write(txt)
+        ctx.obligations.append(('translate:solver.py(QGMRESSolver._GMRESQsparse: restart cycle)', True, ''))
+        cm.prove(ctx, 'C04g.v', ['Gen_C04.v'])
+    except Exception as e:
+        ctx.obligations.append(('translate:solver.py(_GMRESQsparse)', False, repr(e)))
+        ctx.broken.append(f'qtrans cannot translate the restart cycle of _GMRESQsparse any more: {e!r}')
     try:
         import numpy as np, quaternion, utils, solver
         from .c01 import mk_sparse
